@@ -204,7 +204,15 @@ class Gen:
     def arith_script(self) -> bytes:
         r = self.rng
         nums = [0, 1, -1, 127, 128, -128, 255, 256, 32767, 32768, 2**31 - 1, -(2**31) + 1, 2**31, 2**32, r.randrange(-70000, 70000)]
-        a, b, c = (push_data(num_encode(r.choice(nums))) for _ in range(3))
+        va, vb, vc = (r.choice(nums) for _ in range(3))
+        rel = r.random()
+        if rel < 0.25:  # the boundaries every comparison, MIN/MAX and WITHIN turn on: equal and adjacent operands
+            vb = va
+        elif rel < 0.4:
+            vb = va + r.choice([-1, 1])
+        if r.random() < 0.3:
+            vc = r.choice([va, vb, va + 1, vb + 1])
+        a, b, c = (push_data(num_encode(v)) for v in (va, vb, vc))
         if r.random() < 0.2:
             a = r.choice([b"\x01\x80", b"\x02\x00\x80", b"\x05\x00\x00\x00\x00\x80", b"\x02\x01\x00", b"\x05\x01\x00\x00\x00\x00"])
         op2 = bytes([r.choice([147, 148, 154, 155, 156, 157, 158, 159, 160, 161, 162, 163, 164, 135, 136])])
